@@ -796,3 +796,59 @@ pub fn replay(ctx: &Ctx, v: &Value) -> Report {
     }
     rep
 }
+
+// ---------------- hostile answers while a connection is being set up ----------------
+
+/// The driver also runs while `LdapConnSettings::set_starttls(true)` negotiates (its single-operation
+/// mode).  A server that answers the StartTLS request with bytes that are not a well-formed
+/// LDAPMessage and then stays silent, socket open, must make connection setup fail (the pending
+/// StartTLS operation observes the decoding error); it may not leave setup waiting.  Real loopback
+/// TCP; "still pending" is believed only after a second attempt, alone, with a 40 s guard.
+pub fn starttls_garbage(ctx: &Ctx) -> Report {
+    use crate::lanes::starttls::{run, Got, Refusal};
+    use crate::msg::Res;
+    let mut rep = Report::new();
+    let rt = tokio::runtime::Builder::new_multi_thread().worker_threads(2).enable_all().build().expect("rt");
+    let mut rng = case_rng(ctx.seed, "starttls_garbage", 0);
+    let mut answers: Vec<(Vec<u8>, String)> = vec![
+        (vec![0x30, 0x0c, 0x02, 0x01, 0x01, 0x78, 0x0a, 0x0a, 0x01, 0x00, 0x04, 0x00, 0x04, 0x00], "inflated inner length".into()),
+        (vec![0x04, 0x03, 0x01, 0x02, 0x03], "not a SEQUENCE".into()),
+        (vec![0x30, 0x00], "empty envelope".into()),
+        (vec![0x30, 0x03, 0x02, 0x01, 0x01], "message ID only".into()),
+        (vec![0x30, 0x05, 0x02, 0x01, 0xff, 0x78, 0x00], "negative message ID".into()),
+        (vec![0x30, 0x80, 0x02, 0x01, 0x01, 0x00, 0x00], "indefinite length".into()),
+        (vec![0x16, 0x03, 0x01, 0x00, 0x02, 0xff, 0xff], "a TLS record instead of an answer".into()),
+    ];
+    let extra = if ctx.tiny { 0 } else { ctx.n(10, 400) };
+    for _ in 0..extra {
+        let (b, label) = hostile_input(&mut rng, 1);
+        // only inputs that are complete by their own outer length and not an envelope: anything else
+        // legitimately keeps the decoder waiting for more bytes
+        if crate::ber::outer_complete(&b).is_some() && envelope_class(&b) == "not-an-envelope" {
+            answers.push((b, label));
+        }
+    }
+    let mut hung = false;
+    for (k, (bytes, label)) in answers.iter().enumerate() {
+        if hung {
+            break;
+        }
+        let refusal = Refusal { strays: vec![], res: Res::code(0, ""), name: None, split: k % 2 == 1, raw_answer: Some(bytes.clone()) };
+        let replay = json!({"lane":"starttls_garbage","answer":crate::ber::hex(&bytes[..bytes.len().min(64)]),"label":label});
+        match run(&rt, &refusal) {
+            Err(e) => rep.inconclusive(format!("starttls_garbage: {}", e)),
+            Ok(None) => rep.inconclusive("starttls_garbage: first attempt expired on the wall clock, the retry passed".to_string()),
+            Ok(Some(Got::Hang)) => {
+                hung = true;
+                rep.violation("C11:starttls-setup:undecodable-answer-leaves-setup-waiting", format!("answer {} ({}), then silence with the socket open: with_settings still pending after 8 s and, alone, after 40 s", crate::ber::hex(&bytes[..bytes.len().min(64)]), label), replay)
+            }
+            Ok(Some(Got::Established)) => rep.violation("C11:starttls-setup:undecodable-answer-accepted", format!("answer {} ({})", crate::ber::hex(&bytes[..bytes.len().min(64)]), label), replay),
+            Ok(Some(Got::OtherErr(e))) if e.contains("panic") => rep.violation("C11:starttls-setup:panic", format!("answer {} ({}): {}", crate::ber::hex(&bytes[..bytes.len().min(64)]), label, e), replay),
+            Ok(Some(_)) => rep.count("undecodable_starttls_answers_that_failed_the_setup", 1),
+        }
+        rep.case(Some(fnv(bytes)));
+    }
+    rt.shutdown_background();
+    rep.sample(json!({"lane":"starttls_garbage","fixed_answers":answers.iter().take(7).map(|a| a.1.clone()).collect::<Vec<_>>()}));
+    rep
+}
